@@ -13,11 +13,12 @@ TEXT_ATOMS = [
     "a", "b c", "a,b", 'a"b', '"a"', '"', "'", "[a]", "[", "]", "a]", "[a,b]", "a\nb", "<&>",
     "ä€", " a ", "", "\t", "a;b", "(1;2)", "\\", "1", "true",
     "a\u2028b", "a\x85b",          # line boundaries for str.splitlines, not for csv / io
+    "a\rb",                        # a lone carriage return
 ]
 LOOKALIKES = ["yes", "null", "~", "1e3", "2020-01-01", "0x1F", ": x", "- a", "#c", "{a: b}", "|",
               "No", "1.0", "01:02:03", "[1, 2]"]
 UNREPRESENTABLE = "a\x01b"
-CSV_SENSITIVE = ["a", "a,b", 'a"b', '"a"', '"', "[a]", "[", "]", "a\nb", "", " a ", "[a,b]"]
+CSV_SENSITIVE = ["a", "a,b", 'a"b', '"a"', '"', "[a]", "[", "]", "a\nb", "", " a ", "[a,b]", "a\rb"]
 
 TYPED_ATOMS = {
     "int": [0, 1, -7, 10 ** 20],
